@@ -1,4 +1,5 @@
 import Verif.Model.Common
+import Verif.Model.SignNames
 /-
   Model of SSH certificate issuance, renewal and rekey in /repo as far as certificate type,
   key id, principals, options and the choice of the signing key are concerned (property C14).
@@ -31,6 +32,8 @@ import Verif.Model.Common
       `renewSSH`, `rekeySSH` (field copy, signer selection)    -> `renewSSH`, `rekeySSH`
     * authority/ssh.go `IsValidForAddUser`, `SignSSHAddUser`, `getAddUserPrincipal/Command` (defaults)
                                                                  -> `validForAddUser`, `signAddUser`
+    * api/ssh.go `SSHSign` identity part, `identityModifier.Enforce`, `getIdentityURI` (URI is an input)
+                                                                 -> `identityCert` (over `Verif.SignNames.sign`)
     * authority/provisioner/sshpop.go `authorizeToken`, `AuthorizeSSHRenew`, `AuthorizeSSHRekey`,
       `AuthorizeSSHRevoke`; controller.go `DefaultAuthorizeSSHRenew`;
       authority/authorize.go `authorizeSSHCertificate` (revocation gate) -> `popAuthorize`, `popRenew`, `popRekey`
@@ -373,6 +376,41 @@ def signAddUserM (nilGuard sshSection : Bool) (subject : Cert) : M (Option AddUs
   match signAddUser subject with
   | none => .val none
   | some a => if nilGuard || sshSection then .val (some a) else .crash
+
+/-! ### identity certificate (`identityCSR` of /ssh/sign) -/
+
+/-- what /ssh/sign needs to answer an `identityCSR`: the token subject with its `SplitSANs` class,
+    the CSR (property C03's view of it), `getIdentityURI(csr)` = the first `urn:uuid:` URI of the
+    CSR (canonical text), "the names encode", and the genuine provisioner extension -/
+structure IdReq where
+  sub : SignNames.San
+  csr : SignNames.CSR
+  uuid : Option Str
+  enc : Bool
+  gen : SignNames.Ext
+  deriving Repr, DecidableEq
+
+/-- api/ssh.go `SSHSign`, identity part: the same token is authorized again with
+    `SignIdentityMethod` (`JWK/X5C.AuthorizeSign`: the SSH token lists no `sans`, so the names are
+    `[sub]`; `urisValidator` returns nil under that method, so the CSR's URIs are not compared) and
+    the X.509 flow of property C03 runs with the identity CSR; the `identityModifier` enforcer then
+    adds the CSR's `urn:uuid` URI when the certificate does not carry it (and pins the validity to
+    the SSH certificate's, C06). A refusal fails the whole request. -/
+def idCfg (prov : Prov) (r : IdReq) : SignNames.Cfg :=
+  ⟨if prov = .x5c then .x5c else .jwk, false, SignNames.noClaims, SignNames.noClaims, r.gen⟩
+
+def idTok (r : IdReq) : SignNames.Token := ⟨r.sub, [], .absent, none, none, none, []⟩
+
+/-- `identityModifier.Enforce`, URI part -/
+def addUUID (uuid : Option Str) (c : SignNames.Cert) : SignNames.Cert :=
+  { c with uris := match uuid with
+                   | some u => if c.uris.contains u then c.uris else c.uris ++ [u]
+                   | none => c.uris }
+
+def identityCert (prov : Prov) (r : IdReq) : SignNames.Res :=
+  match SignNames.sign (idCfg prov r) (idTok r) { r.csr with uris := [] } none ⟨r.enc, r.enc, none, none⟩ with
+  | .issued c => .issued (addUUID r.uuid c)
+  | x => x
 
 /-! ### SSH-POP: renew, rekey, revoke -/
 
